@@ -3,7 +3,7 @@
     run <id> m7 batch=<n> fails=<0|1,...>
     add <v>|M            -- a producer / stop() appended to the worker's own queue
     env timer <k> | env pstop
-    step looptest <b> | popped <v|M|None> | newtimer <k> | extend [..] ok|fail | requeue | pstop | sinkmarker
+    step looptest <b> | popped <v|M|None> | ntest <b> | newtimer <k> | extend [..] ok|fail | requeue | pstop | sinkmarker
     end done|stuck|bound
 -/
 import MoThreads.Model.TQWorker
@@ -26,6 +26,7 @@ def labelShow : Label → String
   | .sinkmarker => "sinkmarker"
   | .tau => "tau"
   | .tauLazy => "tauLazy"
+  | .ntest b => "ntest " ++ showBool b
 
 structure Sim where
   s : State
@@ -82,8 +83,11 @@ def feed (m : Sim) (ws : List String) : Except String Sim :=
   | "stop" :: _ => .ok m
   | "end" :: kind :: _ =>
     let (sfin, _) := closure 64 m.s
-    -- a lazily skippable step may remain
-    let sfin := match step sfin with | some (s', .tauLazy) => (closure 64 s').1 | _ => sfin
+    -- lazily skippable steps may remain (the optional timer renewal, the `next_push` test): the code has taken them
+    let lazy1 (x : State) : State := match step x with
+      | some (s', .tauLazy) => (closure 64 s').1
+      | _ => x
+    let sfin := lazy1 sfin
     if kind == "bound" then .ok m
     else match step sfin with
       | some (_, l) => .error s!"implementation ended ({kind}) but the model worker can still move: {labelShow l}"
